@@ -205,7 +205,8 @@ def equity_programs(tick, unit):
 
 
 def _equity_session(args):
-    kind, nroutes, order, progs_pair, minutes, emb, fast = args
+    kind, nroutes, order, progs_pair, minutes, emb, fast = args[:7]
+    tf = args[7] if len(args) > 7 else '1m'
     base, tick, unit = emb
     syms = list(S.SYMS[:nroutes])
     if order == 'reversed':
@@ -218,11 +219,11 @@ def _equity_session(args):
     routes = []
     for j, s in enumerate(syms):
         pname, spec = progs_pair[S.SYMS.index(s) % len(progs_pair)]
-        routes.append({'symbol': s, 'timeframe': '1m', 'spec': spec})
+        routes.append({'symbol': s, 'timeframe': tf, 'spec': spec})
     case = {'cfg': {'type': kind, 'fee': 0.001, 'leverage': 2, 'balance': 50 * (base * 2 + 1000 * tick) * unit}, 'routes': routes, 'candles': candles,
             'fast': fast, 'observe': 0}
     r = S.run_session(case)
-    ident = {'equity': True, 'kind': kind, 'routes': [rt['symbol'] for rt in routes], 'programs': [p[0] for p in progs_pair], 'minutes': minutes, 'fast': fast, 'embedding': list(emb)}
+    ident = {'equity': True, 'kind': kind, 'routes': [rt['symbol'] for rt in routes], 'programs': [p[0] for p in progs_pair], 'minutes': minutes, 'fast': fast, 'embedding': list(emb), 'tf': tf}
     out = {'viols': [], 'samples': 0, 'nontrivial': False}
     if r['error']:
         out['viols'].append(Violation('unexpected-exception', {'exc': r['error'][0]}, ident, '%s: %s' % r['error'][:2]).to_json())
@@ -231,6 +232,8 @@ def _equity_session(args):
     out['samples'] = len(eq)
     want_n = 1 + (minutes - 1) // 1440 + 1
     sig0 = {'kind': kind, 'routes': nroutes}
+    if tf != '1m':
+        sig0['tf'] = tf
     if len(eq) != want_n:
         out['viols'].append(Violation('equity-sample-count', sig0, ident, '%d equity samples for %d minutes, expected %d (start + one per day + final)' % (len(eq), minutes, want_n)).to_json())
     if eq and not core.close(eq[0][2], case['cfg']['balance'], rel=1e-12):
@@ -303,6 +306,11 @@ def run(ctx):
                 for order in ('given', 'reversed'):
                     ejobs.append((kind, 2, order, [pa, pb], minutes, emb, False))
         ejobs.append((kind, 2, 'given', [P[0], P[1]], 1445, emb, True))
+    # trading timeframes above 1m (the fast simulator then works in chunks, up to several days long), both simulators
+    P = equity_programs(emb[1], emb[2])
+    for tf, minutes in (('15m', 2 * 1440 + 7), ('4h', 2 * 1440 + 250), ('1D', 3 * 1440 + 10), ('3D', 4 * 1440 + 7)):
+        for fast in (False, True):
+            ejobs.append(('futures', 1, 'given', [P[0]], minutes, emb, fast, tf))
     res = core.pmap(_equity_session, ejobs, chunksize=1)
     for r in res:
         ctx.count('equity-samples', r['samples'])
@@ -329,7 +337,7 @@ def replay(case, ctx):
         P = dict(equity_programs(emb[1], emb[2]))
         pp = [(n, P[n]) for n in case['programs']]
         order = 'given' if case['routes'] == list(S.SYMS[:len(case['routes'])]) else 'reversed'
-        r = _equity_session((case['kind'], len(case['routes']), order, pp, case['minutes'], emb, case['fast']))
+        r = _equity_session((case['kind'], len(case['routes']), order, pp, case['minutes'], emb, case['fast'], case.get('tf', '1m')))
         return [Violation.from_json(v) for v in r['viols']]
     r = _trade_job([(tuple(tuple(k) for k in case['trades']), case['fee'], case['daily'])])
     return [Violation.from_json(v) for v in r['viols']]
